@@ -37,7 +37,7 @@ fn case_parked(ctl: &Arc<Ctl>, out: &mut CaseOut) {
     let (tx, rx) = std::sync::mpsc::channel();
     let (dba, ctla) = (db.clone(), ctl.clone());
     let a = std::thread::spawn(move || {
-        ctla.arm("capi.write.after_snapshot", Some(std::thread::current().id()));
+        ctla.arm("capi.write.before_writer_lock", Some(std::thread::current().id()));
         let _ = tx.send(());
         dba.execute_write(inc, None).is_ok()
     });
@@ -45,7 +45,7 @@ fn case_parked(ctl: &Arc<Ctl>, out: &mut CaseOut) {
     if !ctl.wait_parked(Duration::from_secs(10)) {
         ctl.disarm();
         let _ = a.join();
-        out.inconclusive("point-not-reached:capi.write.after_snapshot");
+        out.inconclusive("point-not-reached:capi.write.before_writer_lock");
         return;
     }
     let b_ok = db.execute_write(inc, None).is_ok();
